@@ -398,7 +398,7 @@ def weave_fn(sc, fb, reach=False):
     if fb.lift is not None:
         it, raw = lift_block(fb, it)
     rules = fb.opts.get('rules')
-    rules = rules.split(',') if rules else ['R0', 'R1', 'R7', 'R8', 'R2', 'R3', 'R9', 'R10', 'R11', 'R12', 'R13', 'R15', 'R16', 'R17', 'R18', 'R20', 'R21', 'R22', 'R23', 'R24', 'R25', 'R26', 'R27', 'R28', 'R29', 'R21b', 'R30']
+    rules = rules.split(',') if rules else ['R0', 'R1', 'R7', 'R8', 'R2', 'R3', 'R9', 'R10', 'R11', 'R12', 'R13', 'R15', 'R16', 'R17', 'R18', 'R20', 'R21', 'R22', 'R23', 'R24', 'R25', 'R26', 'R27', 'R28', 'R29', 'R21b', 'R30', 'R31', 'R32', 'R22b', 'R16b']
     counts = {}
     try:
         # phase A: line-preserving token rewrites
@@ -495,7 +495,7 @@ def weave_fn(sc, fb, reach=False):
             text, origin = apply_inserts(text, origin, inserts)
             # phase C: loop desugarings (line preserving)
             before = text.count('\n')
-            text, c = desugar(text, [r for r in rules if r in ('R2', 'R3', 'R9', 'R10', 'R11', 'R12', 'R13', 'R15', 'R16', 'R17', 'R18', 'R20', 'R21', 'R22', 'R23', 'R24', 'R25', 'R26', 'R27', 'R29', 'R21b', 'R30')])
+            text, c = desugar(text, [r for r in rules if r in ('R2', 'R3', 'R9', 'R10', 'R11', 'R12', 'R13', 'R15', 'R16', 'R17', 'R18', 'R20', 'R21', 'R22', 'R23', 'R24', 'R25', 'R26', 'R27', 'R29', 'R21b', 'R30', 'R31', 'R32', 'R22b', 'R16b')])
             counts.update(c)
             if text.count('\n') != before:
                 raise WeaveError(f'internal: desugaring changed the line count of {fb.path}')
@@ -562,6 +562,10 @@ def weave_fn(sc, fb, reach=False):
     text, origin = apply_inserts(text, origin, inserts)
     if external:
         text = '#[verifier::external_body]\n' + text
+        origin = [('tmpl',)] + origin
+    elif 'no_decreases' in fb.opts:
+        # termination of the loops of this function is NOT proved (option `no_decreases` of the //@fn line; listed as an assumption)
+        text = '#[verifier::exec_allows_no_decreases_clause]\n' + text
         origin = [('tmpl',)] + origin
     return _finish(fb, it, text, origin, counts, raw, external)
 
@@ -744,7 +748,7 @@ def process_template(tmpl_path, repo, reach=False):
     return '\n'.join(out_lines) + '\n', dict(unit=unit, fns=fn_meta, items=item_meta, origin=out_origin)
 
 
-ASSUMPTION_RE = re.compile(r'\b(assume|admit)\s*\(|external_body|assume_specification|#\[verifier::external')
+ASSUMPTION_RE = re.compile(r'\b(assume|admit)\s*\(|external_body|assume_specification|#\[verifier::external|exec_allows_no_decreases_clause')
 
 
 def scan_assumptions(text):
